@@ -147,6 +147,21 @@ def r2_walkers(ctx):
                   + name, reason='%s iterates %s' % (name, srcs),
                   where=where(f))
         for c in comps:
+            if isinstance(c, ast.ListComp) and \
+                    U(c.generators[0].iter) == p:
+                g = c.generators[0]
+                ctx.check(not g.ifs and isinstance(c.elt, ast.Call) and
+                          U(c.elt.func) == 'self.' + name and
+                          c.elt.args and U(c.elt.args[0]) == U(g.target),
+                          'Packet.' + name, 'recursion applies to every '
+                          'item of a list, whatever its kind',
+                          key='items ' + name, reason='the list arm of %s '
+                          'maps items as `%s`%s: byte strings / placeholders '
+                          'below an item that is not recursed into (a list '
+                          'inside a list) are missed' % (
+                              name, U(c.elt)[:70],
+                              ' if ' + U(g.ifs[0]) if g.ifs else ''),
+                          where=where(f, c))
             if isinstance(c, ast.DictComp):
                 tgt = c.generators[0].target
                 ctx.check(isinstance(tgt, ast.Tuple) and
